@@ -153,10 +153,10 @@ class Database(object):
     def drop_collection(self, name_or_collection, session=None):
         if session:
             raise NotImplementedError('Mongomock does not handle sessions yet')
+        # Like pymongo, only the name of a Collection argument is used.
         if isinstance(name_or_collection, Collection):
-            name_or_collection._store.drop()
-        else:
-            self._store[name_or_collection].drop()
+            name_or_collection = name_or_collection.name
+        self._store[name_or_collection].drop()
 
     def _ensure_valid_collection_name(self, name):
         # These are the same checks that are done in pymongo.
